@@ -10,7 +10,8 @@ COQ_FN = "RunC07.run"
 COQ_CASE_TY = "RunC07.case"
 RULE = ("trees over the leaf alphabet {zero chunk, zero summaries Z(0..3), two non-zero chunks} (random shapes; "
         "all shapes of depth<=2 in the thorough tier) x gindex (0, all small ones, deep random ones) x expand on/off "
-        "x replacement node; non-trivial = gindex >= 2 and the tree is not a single leaf; distinct by input JSON")
+        "x replacement node; plus built all-zero subtrees (pairs whose root is a zero hash) of height 1-4 hung below "
+        "other siblings with the target inside them; non-trivial = gindex >= 2 and the tree is not a single leaf; distinct by input JSON")
 EXHAUSTIVE = {"quick": False, "thorough": False}
 NAMES = ["P:get", "P:set", "P:set_probes", "P:orig_untouched", "P:summarize"]
 LEAVES = [["Z", 0], ["Z", 1], ["Z", 2], ["Z", 3], chunk(7), chunk(9)]
@@ -52,6 +53,37 @@ def gen_inputs(ctx):
             sib = rng.choice([chunk(5), ["Z", rng.randrange(0, 4)]])
             t = ["P", sib, t] if bits[i] else ["P", t, sib]
         yield {"tree": t, "g": g, "expand": rng.random() < 0.8, "v": rng.choice(REPL)}
+    yield from gen_zero_built(ctx)
+
+
+def zero_built(rng, h, force=True):
+    """an all-zero subtree of height h with some of it actually built out of pairs (its root is the zero hash of
+    height h although it is not a leaf)"""
+    if h == 0 or (not force and rng.random() < 0.4):
+        return ["Z", h]
+    return ["P", zero_built(rng, h - 1, rng.random() < 0.5), zero_built(rng, h - 1, False)] if rng.random() < 0.5 else \
+           ["P", zero_built(rng, h - 1, False), zero_built(rng, h - 1, rng.random() < 0.5)]
+
+
+def gen_zero_built(ctx):
+    """writes whose path runs through a BUILT all-zero subtree: it must be walked like any other pair, its
+    off-path parts kept as they are"""
+    rng = ctx.rng
+    for _ in range(1200 if ctx.thorough else 250):
+        h = rng.choice([1, 2, 2, 3, 3, 4])
+        t = zero_built(rng, h)
+        g = 1
+        for _ in range(rng.randrange(0, 3)):          # hang it below a few non-zero / other siblings
+            sib = rng.choice([chunk(5), ["Z", rng.randrange(0, 4)], ["P", chunk(7), ["Z", 0]]])
+            if rng.random() < 0.5:
+                t, g = ["P", t, sib], None
+            else:
+                t, g = ["P", sib, t], None
+        # a target inside (or just below) the zero subtree
+        d = tree_depth(t)
+        g = (1 << d) | rng.getrandbits(d) if rng.random() < 0.8 else rng.randrange(1, 2 << (d + 1))
+        g >>= rng.choice([0, 0, 0, 1])
+        yield {"tree": t, "g": max(g, 1), "expand": rng.random() < 0.8, "v": rng.choice(REPL)}
 
 
 def build(inp):
